@@ -124,6 +124,7 @@ def run(ctx):
                         {"schema_xml": F.render_xml(sd), "sequence": [{"op": "import", "lines": lines, "outcome": out[:2]}],
                          "subtypes_after": cfgrun.subtypes_table(real)},
                         signature="C13:digest:abstract-implementers-grow-after-import")
+        _directed(ctx, pk)
     finally:
         pk.close()
     return core.finish(ctx, obligations, discharged, names, RULE,
@@ -139,3 +140,100 @@ def _only_subtypes_differ(a, b):
             if te[0] == "abstract":
                 te[2] = []
     return enc(a) == enc(b)
+
+
+def _directed(ctx, pk):
+    """histories that need particular ingredients: a schema that itself imports a component, loads that %import a
+    component the schema already has and then another one, components using dotted datatypes whose names differ only in
+    letter case, a loader object that is reused after a load whose first %import failed.  Every step is compared with
+    the same step on a freshly loaded copy of the schema, and the schema's description with its initial value."""
+    import io
+    import os
+    import ZConfig
+    from ZConfig.loader import ConfigLoader
+
+    pa = pk.add_component([F.TypeD("dira", [F.KeyD("k", "string")])])
+    pb = pk.add_component([F.TypeD("dirb", [F.KeyD("k", "string")])])
+    # a datatype module with two names that differ only in letter case
+    mod = pk.fresh_name("zcvdtmod")
+    open(os.path.join(pk.root, mod + ".py"), "w").write(
+        "def size(v):\n    return ('function', v)\n\nclass Size:\n    def __init__(self, v):\n        self.v = v\n"
+        "    def __eq__(self, o):\n        return isinstance(o, Size) and o.v == self.v\n    def __repr__(self):\n        return 'Size(%r)' % self.v\n")
+    pk.names.append(mod)
+    pc = pk.add_component([F.TypeD("dirc", [F.KeyD("k", mod + ".size")], implements="anyt")])
+    pd = pk.add_component([F.TypeD("dird", [F.KeyD("k", mod + ".Size")], implements="anyt")])
+    xml = ("<schema><import package='%s'/><multisection type='dira' name='*' attribute='a'/>"
+           "<multisection type='dirb' name='*' attribute='b'/></schema>")
+    # 'dirb' must be a known type for the slot: declare the slot types abstractly instead
+    xml = ("<schema><import package='%s'/><abstracttype name='anyt'/><multisection type='dira' name='*' attribute='a'/>"
+           "<multisection type='anyt' name='*' attribute='anys'/><key name='plain'/></schema>") % pa
+
+    def fresh():
+        return ZConfig.loadSchemaFile(io.StringIO(xml))
+
+    def run(schema, text, loader=None):
+        try:
+            if loader is not None:
+                cfg, _ = loader.loadFile(io.StringIO(text), cfgstream.URL)
+            else:
+                cfg, _ = ZConfig.loadConfigFile(schema, io.StringIO(text), cfgstream.URL)
+            return ["ok", cfgrun.describe(cfg)]
+        except ZConfig.ConfigurationError as e:
+            return ["cfg", type(e).__name__]
+        except Exception as e:
+            return ["exc", type(e).__name__]
+
+    histories = {
+        "import-known-then-other": ["%%import %s\n%%import %s\nplain x\n" % (pa, pb), "plain y\n<dira/>\n", "plain z\n%%import %s\n" % pb],
+        "dotted-datatypes-case": ["%%import %s\n<dirc>\nk 5\n</dirc>\n" % pc, "%%import %s\n<dird>\nk 7\n</dird>\n" % pd,
+                                  "%%import %s\n%%import %s\n<dird>\nk 1\n</dird>\n<dirc>\nk 2\n</dirc>\n" % (pd, pc)],
+        "import-then-use-without-import": ["%%import %s\nplain x\n" % pb, "plain y\n", "%%import %s\n<dira/>\n" % pa],
+    }
+    for hname, texts in histories.items():
+        reused = fresh()
+        d0 = sdigest(reused)
+        for i, t in enumerate(texts):
+            a = run(reused, t)
+            b = run(fresh(), t)
+            ctx.evaluations += 1
+            ctx.nontriv(("directed", hname, i))
+            if a != b:
+                ctx.violate("history %s, load %d: reused schema gives %r, a fresh copy %r" % (hname, i + 1, a, b),
+                            {"schema_xml": xml, "texts": texts, "step": i + 1, "reused": a, "fresh": b},
+                            signature="C13:directed:" + hname + ":outcome")
+                break
+            # (components implementing one of the schema's abstract types change its implementer table: the listed
+            #  finding C13-implementers-leak, reported by the main stream; not re-reported here)
+            if hname != "dotted-datatypes-case" and sdigest(reused) != d0:
+                ctx.violate("history %s: the schema's own description changed after load %d" % (hname, i + 1),
+                            {"schema_xml": xml, "texts": texts[: i + 1]}, signature="C13:directed:" + hname + ":digest")
+                break
+        # what a later load sees must not depend on the history either: the probe text against the used schema and a fresh one
+        for probe in ("<dirb/>\n", "plain q\n"):
+            a, b = run(reused, probe), run(fresh(), probe)
+            ctx.evaluations += 1
+            if a != b:
+                ctx.violate("after history %s the text %r gives %r on the used schema and %r on a fresh copy" % (hname, probe, a, b),
+                            {"schema_xml": xml, "texts": texts, "probe": probe}, signature="C13:directed:" + hname + ":probe")
+                break
+    # one ConfigLoader object reused after a load whose FIRST %import failed
+    reused = fresh()
+    d0 = sdigest(reused)
+    ld = ConfigLoader(reused)
+    steps = ["%import zcv_no_such_package_c13\n", "%%import %s\nplain x\n" % pb, "plain y\n"]
+    for i, t in enumerate(steps):
+        a = run(reused, t, loader=ld)
+        b = run(fresh(), t)
+        ctx.evaluations += 1
+        if a != b:
+            ctx.violate("reused loader, load %d: %r vs %r on a fresh schema and loader" % (i + 1, a, b),
+                        {"schema_xml": xml, "texts": steps, "step": i + 1}, signature="C13:directed:reused-loader:outcome")
+            break
+        if sdigest(reused) != d0:
+            ctx.violate("reused loader: the schema's own description changed after load %d" % (i + 1),
+                        {"schema_xml": xml, "texts": steps[: i + 1]}, signature="C13:directed:reused-loader:digest")
+            break
+    a, b = run(reused, "<dirb/>\n"), run(fresh(), "<dirb/>\n")
+    if a != b:
+        ctx.violate("after a failed %%import on a reused loader, '<dirb/>' gives %r on the used schema and %r on a fresh copy" % (a, b),
+                    {"schema_xml": xml, "texts": steps}, signature="C13:directed:reused-loader:probe")
